@@ -108,6 +108,28 @@ func nilOnSuccess(p *an.Prog) map[*ssa.Function]map[int]bool {
 		}
 		return false
 	}
+	// pairNilNil: can (ptr, err) be (nil, nil) together when they are handed back from block b? Phis of one block are
+	// judged edge by edge (they are correlated: `return nil, err` / `return v, nil` merged into one return).
+	pairNilNil := func(ptrV, errV ssa.Value, b *ssa.BasicBlock) bool {
+		errOK := func(e ssa.Value, at, pred *ssa.BasicBlock) bool {
+			if kc, isC := e.(*ssa.Const); isC {
+				return kc.Value == nil
+			}
+			return p.ValState(e, at, pred) != an.NonNil && !isSentinelLoad(p, e)
+		}
+		eph, eIsPhi := errV.(*ssa.Phi)
+		pph, pIsPhi := ptrV.(*ssa.Phi)
+		if eIsPhi && pIsPhi && eph.Block() == pph.Block() {
+			for k := range eph.Edges {
+				pred := eph.Block().Preds[k]
+				if errOK(eph.Edges[k], pred, nil) && mayNil(pph.Edges[k], 0) && p.ValState(pph.Edges[k], pred, nil) != an.NonNil {
+					return true
+				}
+			}
+			return false
+		}
+		return errOK(errV, b, nil) && mayNil(ptrV, 0) && p.ValState(ptrV, b, nil) != an.NonNil
+	}
 	for changed := true; changed; {
 		changed = false
 		for _, f := range fns {
@@ -128,13 +150,6 @@ func nilOnSuccess(p *an.Prog) map[*ssa.Function]map[int]bool {
 							if errV == nil {
 								continue
 							}
-							if k, isK := errV.(*ssa.Const); isK {
-								if k.Value != nil {
-									continue
-								}
-							} else if p.ValState(errV, sb, nil) == an.NonNil || isSentinelLoad(p, errV) {
-								continue
-							}
 							for i := 0; i < errIdx; i++ {
 								if !isPtrT(res.At(i).Type()) || nn[f][i] {
 									continue
@@ -151,7 +166,7 @@ func nilOnSuccess(p *an.Prog) map[*ssa.Function]map[int]bool {
 								if pv == nil {
 									continue // assigned elsewhere (before the branch): not judged at this site
 								}
-								if mayNil(pv, 0) && p.ValState(pv, sb, nil) != an.NonNil {
+								if pairNilNil(pv, errV, sb) {
 									if nn[f] == nil {
 										nn[f] = map[int]bool{}
 									}
@@ -208,6 +223,44 @@ func nilOnSuccess(p *an.Prog) map[*ssa.Function]map[int]bool {
 						}
 					}
 					if !succ {
+						continue
+					}
+				}
+				// merged results (several `return x, y` folded into one by inlining or by hand): the error and the
+				// pointer are phis of one block — judge them edge by edge, they are correlated
+				if eph, isPhi := ev.(*ssa.Phi); isPhi {
+					handled := false
+					for i := 0; i < errIdx; i++ {
+						if !isPtrT(res.At(i).Type()) {
+							continue
+						}
+						pph, ok := an.RetOperand(r, i).(*ssa.Phi)
+						if !ok || pph.Block() != eph.Block() {
+							continue
+						}
+						handled = true
+						if nn[f][i] {
+							continue
+						}
+						for k := range eph.Edges {
+							ek := eph.Edges[k]
+							pred := eph.Block().Preds[k]
+							okErr := false
+							if kc, isC := ek.(*ssa.Const); isC {
+								okErr = kc.Value == nil
+							} else {
+								okErr = p.ValState(ek, pred, nil) != an.NonNil && !isSentinelLoad(p, ek)
+							}
+							if okErr && mayNil(pph.Edges[k], 0) && p.ValState(pph.Edges[k], pred, nil) != an.NonNil {
+								if nn[f] == nil {
+									nn[f] = map[int]bool{}
+								}
+								nn[f][i] = true
+								changed = true
+							}
+						}
+					}
+					if handled {
 						continue
 					}
 				}
